@@ -73,7 +73,9 @@ impl World {
             delegated: None,
         };
         let sys_head = v.put(&SystemState::new(&v.store).unwrap());
-        v.set_actor(SYSTEM_ACTOR_ID, ent(*SYSTEM_ACTOR_CODE_ID, sys_head, faucet_total.clone()));
+        // the system actor keeps 50M FIL of its own: the source of gas rewards in AwardBlockReward messages
+        let system_total = &faucet_total + TokenAmount::from_whole(50_000_000i64);
+        v.set_actor(SYSTEM_ACTOR_ID, ent(*SYSTEM_ACTOR_CODE_ID, sys_head, system_total));
         let init_head = v.put(&InitState::new(&v.store, "verif".to_string()).unwrap());
         v.set_actor(INIT_ACTOR_ID, ent(*INIT_ACTOR_CODE_ID, init_head, TokenAmount::zero()));
         let reward_head = v.put(&RewardState::new(StoragePower::zero()));
